@@ -19,6 +19,8 @@ from geneticengine.grammar.metahandlers.ints import IntRange
 from rt.heap_helpers import (
     Clock,
     SpySource,
+    Timeout,
+    watchdog,
     all_grammars,
     extract_grammar,
     make_rep,
@@ -98,6 +100,8 @@ def _map(rep, gt, shared):
     try:
         p = rep.genotype_to_phenotype(gt)
         out = ("ok", sstruct(p), n_nodes(p))
+    except Timeout:
+        raise
     except Exception as ex:  # library failure: an outcome like any other, compared across the three mappings
         out = ("exc", type(ex).__name__, 0)
     finally:
@@ -113,6 +117,8 @@ def _genotypes(rep, kind, shared):
         if kind == "dSGE":  # the permitted growth happens here, before anything is compared
             try:
                 rep.genotype_to_phenotype(g)
+            except Timeout:
+                raise
             except Exception:
                 pass
         return g
@@ -126,6 +132,8 @@ def _genotypes(rep, kind, shared):
         out.append(("mutate(create)", m))
         mm = grow(rep.mutate(shared, m))
         out.append(("mutate(mutate(create))", mm))
+    except Timeout:
+        raise
     except Exception:
         pass
     try:
@@ -133,6 +141,8 @@ def _genotypes(rep, kind, shared):
         out.append(("crossover(create,create#2)[0]", grow(c1)))
         out.append(("crossover(create,create#2)[1]", grow(c2)))
         out.append(("mutate(crossover(..)[0])", grow(rep.mutate(shared, c1))))
+    except Timeout:
+        raise
     except Exception:
         pass
     return out
@@ -156,10 +166,95 @@ def run(tier: str, seed: int) -> dict:
     setup_errors = {}
     outcome_stats = {}
     rounds_done = 0
+    timeouts = {}
 
     def report(key, rank, what, unit):
         if key not in found or rank < found[key][0]:
             found[key] = (rank, what, unit)
+
+    def case(kind, dk, gl, run_seed, gname, classes, start, gdesc):
+        nonlocal evaluations, mappings
+        shared = SpySource(run_seed)
+        try:
+            grammar = extract_grammar(classes, start)
+            spy = _OrderSpy(grammar) if kind == "Stack" else None
+            rep = make_rep(kind, grammar, shared, decider_kind=dk if dk != "-" else "MaxDepth", gene_length=gl)
+            pool = _genotypes(rep, kind, shared)
+        except Timeout:
+            raise
+        except Exception as ex:
+            k = f"{kind}/{gname}: {type(ex).__name__}"
+            setup_errors[k] = setup_errors.get(k, 0) + 1
+            return
+        for how, gt in pool:
+            evaluations += 1
+            before = value_snapshot(gt)
+            outs, adv, sites, orders = [], [], [], []
+            for rnd in range(3):
+                if spy:
+                    spy.orders = []
+                o, a, st = _map(rep, gt, shared)
+                if spy:
+                    orders.append(spy.orders[0] if spy.orders else None)
+                junk.append([_Junk() for _ in range(1 + (rnd + evaluations) % 5)])  # unrelated allocations
+                if len(junk) > 400:
+                    del junk[:200]
+                mappings += 1
+                outs.append(o)
+                adv.append(a)
+                sites.extend(st)
+                for _ in range(rnd + 1):  # foreign use of the shared stream between mappings
+                    shared.randint(0, 10**6)
+            after = value_snapshot(gt)
+            kinds_out = tuple(o[0] for o in outs)
+            ok_key = f"{kind}:{kinds_out[0]}" + ("" if outs[0][0] == "ok" else ":" + outs[0][1])
+            outcome_stats[ok_key] = outcome_stats.get(ok_key, 0) + 1
+            if outs[0][0] == "ok" and outs[0][2] >= 2:
+                distinct.add((kind, gname, outs[0][1]))
+            differs = len({o[:2] for o in outs}) > 1
+            size = max(o[2] for o in outs)
+            rendered = " / ".join(show(o[1]) if o[0] == "ok" else f"raises {o[1]}" for o in outs)
+            where = (
+                f"{kind}{'' if dk == '-' else '(' + dk + 'Decider)'} on {gname} [{gdesc}], gene_length={gl}, "
+                f"NativeRandomSource({run_seed}), genotype via {how}"
+            )
+            if any(adv):
+                cats = {}
+                for st in sites:
+                    cats.setdefault(site_category(st), []).append(st)
+                if "metahandler" in cats:
+                    # a refinement that re-draws its value changes the path, hence later growth:
+                    # one defect, reported once under the metahandler site
+                    cats.pop("genotype-growth", None)
+                for cat, sts in cats.items():
+                    st = sts[0]
+                    key = f"rt:C07:{kind}-{cat}-draws-from-shared-rng"
+                    what = (
+                        f"{where}: mapping the SAME genotype 3x gave {short(rendered, 260)}; the shared source's "
+                        f"getstate() changed during mapping ({len(sts)} draws by {st[0]}:{st[3]} {st[2]}.{st[1]}); "
+                        f"expected identical programs and an untouched shared stream"
+                    )
+                    report(key, (0 if differs else 1, size, len(what)), what, REP_UNIT[kind])
+            elif differs:
+                if kind == "Stack" and len(set(orders)) > 1:
+                    i = next(j for j in range(1, 3) if orders[j] != orders[0])
+                    key = "rt:C07:Stack-mapping-follows-symbol-set-order"
+                    what = (
+                        f"{where}: mapping the SAME genotype 3x gave {short(rendered, 200)}; no shared draws - the mapper indexes "
+                        f"list(grammar.get_all_mentioned_symbols()), a set, whose order was {list(orders[0])} in mapping 1 and "
+                        f"{list(orders[i])} in mapping {i + 1}"
+                    )
+                else:
+                    key = f"rt:C07:{kind}-remap-differs-without-shared-draws"
+                    what = f"{where}: mapping the SAME genotype 3x gave {short(rendered, 300)} although the shared stream was not used"
+                report(key, (0, size, len(what)), what, REP_UNIT[kind])
+            if before != after and not (kind == "dSGE" and any(site_category(st) == "metahandler" for st in sites)):
+                key = f"rt:C07:{kind}-mapping-modifies-genotype"
+                extra = " (after the permitted first growth)" if kind == "dSGE" else ""
+                what = f"{where}: the genotype's genes differ before / after three mappings{extra}; outcomes {short(rendered, 200)}"
+                report(key, (0, size, len(what)), what, REP_UNIT[kind])
+            if not any(adv) and not differs and before == after and len(samples) < 8 and outs[0][0] == "ok" and (kind, gname) not in {(x["rep"], x["grammar"]) for x in samples}:
+                samples.append({"rep": kind, "grammar": gname, "decider": dk, "via": how, "program": short(show(outs[0][1]), 120), "verdict": "3 mappings identical, stream untouched"})
 
     for s in range(n_seeds):
         for gl in gene_lengths:
@@ -169,85 +264,11 @@ def run(tier: str, seed: int) -> dict:
                         if clock.over():
                             break
                         run_seed = seed * 7919 + s * 101 + gl
-                        shared = SpySource(run_seed)
                         try:
-                            grammar = extract_grammar(classes, start)
-                            spy = _OrderSpy(grammar) if kind == "Stack" else None
-                            rep = make_rep(kind, grammar, shared, decider_kind=dk if dk != "-" else "MaxDepth", gene_length=gl)
-                            pool = _genotypes(rep, kind, shared)
-                        except Exception as ex:
-                            k = f"{kind}/{gname}: {type(ex).__name__}"
-                            setup_errors[k] = setup_errors.get(k, 0) + 1
-                            continue
-                        for how, gt in pool:
-                            evaluations += 1
-                            before = value_snapshot(gt)
-                            outs, adv, sites, orders = [], [], [], []
-                            for rnd in range(3):
-                                if spy:
-                                    spy.orders = []
-                                o, a, st = _map(rep, gt, shared)
-                                if spy:
-                                    orders.append(spy.orders[0] if spy.orders else None)
-                                junk.append([_Junk() for _ in range(1 + (rnd + evaluations) % 5)])  # unrelated allocations
-                                if len(junk) > 400:
-                                    del junk[:200]
-                                mappings += 1
-                                outs.append(o)
-                                adv.append(a)
-                                sites.extend(st)
-                                for _ in range(rnd + 1):  # foreign use of the shared stream between mappings
-                                    shared.randint(0, 10**6)
-                            after = value_snapshot(gt)
-                            kinds_out = tuple(o[0] for o in outs)
-                            ok_key = f"{kind}:{kinds_out[0]}" + ("" if outs[0][0] == "ok" else ":" + outs[0][1])
-                            outcome_stats[ok_key] = outcome_stats.get(ok_key, 0) + 1
-                            if outs[0][0] == "ok" and outs[0][2] >= 2:
-                                distinct.add((kind, gname, outs[0][1]))
-                            differs = len({o[:2] for o in outs}) > 1
-                            size = max(o[2] for o in outs)
-                            rendered = " / ".join(show(o[1]) if o[0] == "ok" else f"raises {o[1]}" for o in outs)
-                            where = (
-                                f"{kind}{'' if dk == '-' else '(' + dk + 'Decider)'} on {gname} [{gdesc}], gene_length={gl}, "
-                                f"NativeRandomSource({run_seed}), genotype via {how}"
-                            )
-                            if any(adv):
-                                cats = {}
-                                for st in sites:
-                                    cats.setdefault(site_category(st), []).append(st)
-                                if "metahandler" in cats:
-                                    # a refinement that re-draws its value changes the path, hence later growth:
-                                    # one defect, reported once under the metahandler site
-                                    cats.pop("genotype-growth", None)
-                                for cat, sts in cats.items():
-                                    st = sts[0]
-                                    key = f"rt:C07:{kind}-{cat}-draws-from-shared-rng"
-                                    what = (
-                                        f"{where}: mapping the SAME genotype 3x gave {short(rendered, 260)}; the shared source's "
-                                        f"getstate() changed during mapping ({len(sts)} draws by {st[0]}:{st[3]} {st[2]}.{st[1]}); "
-                                        f"expected identical programs and an untouched shared stream"
-                                    )
-                                    report(key, (0 if differs else 1, size, len(what)), what, REP_UNIT[kind])
-                            elif differs:
-                                if kind == "Stack" and len(set(orders)) > 1:
-                                    i = next(j for j in range(1, 3) if orders[j] != orders[0])
-                                    key = "rt:C07:Stack-mapping-follows-symbol-set-order"
-                                    what = (
-                                        f"{where}: mapping the SAME genotype 3x gave {short(rendered, 200)}; no shared draws - the mapper indexes "
-                                        f"list(grammar.get_all_mentioned_symbols()), a set, whose order was {list(orders[0])} in mapping 1 and "
-                                        f"{list(orders[i])} in mapping {i + 1}"
-                                    )
-                                else:
-                                    key = f"rt:C07:{kind}-remap-differs-without-shared-draws"
-                                    what = f"{where}: mapping the SAME genotype 3x gave {short(rendered, 300)} although the shared stream was not used"
-                                report(key, (0, size, len(what)), what, REP_UNIT[kind])
-                            if before != after and not (kind == "dSGE" and any(site_category(st) == "metahandler" for st in sites)):
-                                key = f"rt:C07:{kind}-mapping-modifies-genotype"
-                                extra = " (after the permitted first growth)" if kind == "dSGE" else ""
-                                what = f"{where}: the genotype's genes differ before / after three mappings{extra}; outcomes {short(rendered, 200)}"
-                                report(key, (0, size, len(what)), what, REP_UNIT[kind])
-                            if not any(adv) and not differs and before == after and len(samples) < 8 and outs[0][0] == "ok" and (kind, gname) not in {(x["rep"], x["grammar"]) for x in samples}:
-                                samples.append({"rep": kind, "grammar": gname, "decider": dk, "via": how, "program": short(show(outs[0][1]), 120), "verdict": "3 mappings identical, stream untouched"})
+                            with watchdog(8):
+                                case(kind, dk, gl, run_seed, gname, classes, start, gdesc)
+                        except Timeout:
+                            timeouts[f"{kind}/{gname}"] = timeouts.get(f"{kind}/{gname}", 0) + 1
         rounds_done = s + 1 if not clock.over() else rounds_done
         if clock.over():
             break
@@ -271,5 +292,6 @@ def run(tier: str, seed: int) -> dict:
         seed_rounds_completed=rounds_done,
         outcome_stats=dict(sorted(outcome_stats.items())),
         setup_errors=dict(sorted(setup_errors.items())),
+        timeouts_skipped=timeouts,
         seconds=round(clock.used(), 1),
     )
